@@ -20,7 +20,8 @@ ID = "C18"
 LEVEL = "exploration"
 DESIGN_REF = "DESIGN.md §3.2, §4 C18"
 RULE = (
-    "cases = (kind in {debouncer, autorestart, shell}, program, schedule).  debouncer: <= 5 events with gaps from {0, "
+    "cases = (kind in {debouncer, autorestart, shell}, program, schedule).  debouncer: <= 5 events (distinct, or with "
+    "equal ones among them) with gaps from {0, "
     "I/2, I-eps, I, I+eps, 2I} (I = debounce interval 1.0 or 0), stop at a generated time; autorestart: 0-4 events with "
     "gaps, child behaviours (self-exit after t or never; dies on SIGINT after 0/0.1/0.6 s or ignores it), debounce 0|1, "
     "restart_on_command_exit on/off, stop from a second thread at a generated time; shell: 1-4 events, child run times, "
@@ -47,8 +48,22 @@ def main_debouncer(prog):
 
     def main(s):
         now = lambda: s.now  # noqa: E731
+        class E:
+            """What is handed in: the i-th event; events with the same value compare equal (the same change reported twice)."""
+
+            def __init__(self, i, val):
+                self.i, self.val = i, val
+
+            def __eq__(self, other):
+                return isinstance(other, E) and other.val == self.val
+
+            def __hash__(self):
+                return hash(self.val)
+
+        values = prog.get("values") or list(range(len(prog["events"])))
+
         def callback(evs):
-            s.record("batch", (list(evs), now()))
+            s.record("batch", ([e.i for e in evs], now()))
             if prog.get("cb_time"):
                 tm.sleep(prog["cb_time"])  # a slow callback (e.g. a restart): events may arrive while it runs
             s.record("batch_done", now())
@@ -61,7 +76,7 @@ def main_debouncer(prog):
                 if gap:
                     tm.sleep(gap)
                 s.record("event", (i, now()))
-                deb.handle_event(i)
+                deb.handle_event(E(i, values[i]))
 
         f = th.Thread(target=feeder, name="feeder")
         f.start()
@@ -323,6 +338,7 @@ def programs(draw):
             "events": [draw(st.sampled_from(GAPS_D)) for _ in range(n)],
             "stop_at": draw(st.sampled_from([None, None, 0.0, I / 2, I, 2 * I + EPS])),
             "cb_time": draw(st.sampled_from([0, 0, I / 2, I + EPS])),
+            "values": [draw(st.integers(0, 1)) for _ in range(n)] if draw(st.booleans()) else None,
         }
     if kind == "autorestart":
         calm = draw(st.booleans())
@@ -365,6 +381,8 @@ FIXED = [
     {"kind": "debouncer", "interval": I, "events": [0.0], "stop_at": 0.0},
     {"kind": "debouncer", "interval": 0, "events": [0.0, 0.0, I], "stop_at": None},
     {"kind": "debouncer", "interval": I, "events": [0.0, I + I / 2], "stop_at": None, "cb_time": I},
+    # equal events handed in back to back, and again after a different one: each is an event of its own
+    {"kind": "debouncer", "interval": I, "events": [0.0, 0.0, I / 2, 0.0, 2 * I], "values": [7, 7, 8, 7, 7], "stop_at": None},
     {"kind": "autorestart", "calm": False, "events": [(0.5, True)], "children": [{"exit_after": 0.5, "on_sigint": ("exit", 0.1)}], "debounce": 0, "restart_on_exit": True, "stop_at": None},
     {"kind": "autorestart", "calm": False, "events": [(0.0, True), (0.0, True)], "children": [{"exit_after": None, "on_sigint": ("exit", 0.0)}], "debounce": 0, "restart_on_exit": True, "stop_at": 0.0},
     {"kind": "autorestart", "calm": False, "events": [(0.1, True)], "children": [{"exit_after": None, "on_sigint": "ignore"}], "debounce": 1, "restart_on_exit": False, "stop_at": 1.1},
